@@ -447,6 +447,50 @@ pub fn run(tier: Tier) -> i32 {
     let st = run_space(ltotal, |i| check_lenient(i, lmax));
     rep.set("lenient_inputs", json!(ltotal));
     rep.absorb("lenient", st);
+    // whole well-formed documents around the prolog and around elements which cannot be read (fourth review round):
+    // for an <svg>-rooted input an Ok result is a single-rooted <svg> document with namespace and version
+    let wdocs: Vec<(&str, &str)> = vec![
+        ("unreadable-element-in-specs/entity", r##"<!DOCTYPE svg [<!ENTITY c "red">]><svg><specs><rect id="a" wh="5" fill="&c;"/></specs><rect wh="5"/></svg>"##),
+        ("unreadable-element-in-specs/nested", r##"<!DOCTYPE svg [<!ENTITY c "red">]><!-- kept --><svg><rect wh="5"/><g><specs><rect id="a" wh="5" fill="&c;"/></specs></g><rect wh="5"/></svg>"##),
+        ("unreadable-element-in-specs/deeper", r##"<!DOCTYPE svg [<!ENTITY c "red">]><svg><specs><g id="a"><rect wh="5" fill="&c;"/></g></specs><rect wh="5"/></svg>"##),
+        ("unreadable-element/plain", r##"<!DOCTYPE svg [<!ENTITY c "red">]><svg><rect id="a" wh="5" fill="&c;"/><rect wh="5"/></svg>"##),
+        ("doctype-markup-characters/less-than-in-comment", r##"<!DOCTYPE svg [<!-- a < b -->]><svg><rect wh="5"/></svg><!-- a > b -->"##),
+        ("doctype-markup-characters/less-than-in-entity", r##"<!DOCTYPE svg [<!ENTITY lt2 "<">]><svg><rect wh="5"/></svg><!-- > -->"##),
+        ("doctype-markup-characters/element-in-system-literal", r##"<!DOCTYPE svg SYSTEM "a><x/>"><svg><rect wh="5"/></svg>"##),
+        ("doctype-markup-characters/element-in-entity", r##"<!DOCTYPE svg [<!ENTITY e "a >> b <desc/>">]><svg><rect wh="5"/></svg>"##),
+        ("doctype-markup-characters/greater-than-in-entity", r##"<!DOCTYPE svg [<!ENTITY e "a > b">]><svg><rect wh="5"/></svg>"##),
+    ];
+    let st = run_space(wdocs.len() * cfgs.len(), |i| {
+        let ((name, doc), (cname, cfg)) = (wdocs[i / cfgs.len()], &cfgs[i % cfgs.len()]);
+        let mut problem = None;
+        if let Err(e) = xmlref::parse(doc.as_bytes(), Mode::Document) {
+            problem = Some(("machinery-ill-formed-input", e.to_string()));
+        }
+        let out = run_bytes(doc.as_bytes(), cfg);
+        match &out {
+            Outcome::Panic(p) => problem = Some(("panic", p.clone())),
+            Outcome::Err(_) => {}
+            Outcome::Ok(b) => match xmlref::parse(b, Mode::Document) {
+                Err(e) => problem = Some(("output-not-a-document", format!("{e}\noutput: {:?}", clip(&String::from_utf8_lossy(b), 400)))),
+                Ok(evs) => {
+                    let tree = xmlref::to_tree(&evs);
+                    match xmlref::root(&tree) {
+                        Some(r) if r.name == "svg" && r.attr("xmlns") == Some(crate::props::c03::NS) && r.attr("version").is_some() => {}
+                        Some(r) => problem = Some(("root-not-svg-with-namespace-and-version", format!("root <{}> {:?}", r.name, r.attrs))),
+                        None => problem = Some(("root-missing", "no root".into())),
+                    }
+                }
+            },
+        }
+        CaseResult {
+            case_hash: hash64(&(doc, cname)),
+            nontrivial: matches!(out, Outcome::Ok(_)) && problem.is_none(),
+            outcome_hash: hash64(&format!("{out:?}")),
+            executions: 1,
+            violation: problem.map(|(clause, detail)| Violation { clause: clause.into(), signature: format!("C02/whole-document/{name}/{clause}"), case: json!({"leg": "whole-document", "input": doc, "config": cfg.to_json(), "config_name": cname}), detail: format!("{doc}\n{detail}") }),
+        }
+    });
+    rep.absorb("whole-documents", st);
     // the oracle itself is bound to a second implementation
     match crate::xmlref::expat_conformance(tier.pick(3, 5)) {
         Ok((n, acc)) => rep.set("oracle_conformance", json!({"against": "expat (python3 stdlib)", "documents": n, "accepted_by_both": acc, "rule": "every string of <= k tokens over a 33-token XML alphabet: same well-formedness verdict and same event stream"})),
